@@ -1,5 +1,8 @@
 import CrdtModel.Audit.Tool
 import CrdtModel.Props.C20
 import CrdtModel.Props.C06
+import CrdtModel.Props.C05
 #audit_ns Crdt.C20
 #audit_ns Crdt.C06
+#audit_ns Crdt.C05
+#audit_ns Crdt.CMap
